@@ -291,6 +291,7 @@ func genSpec(seed int64, i int, wire int) *Spec {
 	}
 
 	// ------------------------------------------------------------------ cases: all 8 flag combinations
+	rz := hlib.NewRand(seed*9000011 + int64(i)*15485863 + 5)
 	for _, t := range tgts {
 		ifn := all[r.Intn(len(all))].name
 		if r.Intn(12) == 0 {
@@ -302,6 +303,11 @@ func genSpec(seed int64, i int, wire int) *Spec {
 			srcip = "2001:db8::99"
 		case 1:
 			srcip = "::ffff:192.0.2.7" // IPv4-mapped text form
+		}
+		// the unspecified address given explicitly is still an explicit --srcip: used as given (0.0.0.0 in both
+		// textual forms) or refused (::); own random stream, so that everything else stays what it was
+		if rz.Intn(5) == 0 {
+			srcip = []string{"0.0.0.0", "::ffff:0.0.0.0", "::", "0.0.0.0"}[rz.Intn(4)]
 		}
 		mb := r.Bytes(6)
 		mb[0] = mb[0]&^1 | 2
